@@ -71,7 +71,12 @@ bool knownFindingMatches(const std::string& cls, const std::string& detail, std:
 static std::string sanitize(std::string s) { for (auto& c : s) if (c == '\n' || c == '\t' || c == '\r') c = ' '; return s; }
 static std::string fileSafe(std::string s) { for (auto& c : s) if (!isalnum((unsigned char)c) && c != '-' && c != '_' && c != '.') c = '_'; if (s.size() > 60) s.resize(60); return s; }
 
-static std::string kv(const std::map<std::string, uint64_t>& m) { std::string s; for (auto& e : m) { if (!s.empty()) s += ','; s += e.first + "=" + std::to_string(e.second); } return s.empty() ? "-" : s; }
+static std::string kv(const std::map<std::string, uint64_t>& m) {
+    std::string s;
+    for (auto& e : m) { if (!s.empty()) s += ','; std::string k = e.first.substr(0, 80); for (auto& c : k) if (c == ' ' || c == ',' || c == '=' || c == '\t' || c == '\n') c = '_'; s += k + "=" + std::to_string(e.second); }
+    if (s.size() > 3900) s.resize(s.rfind(',', 3900));      // the line parser reads bounded fields
+    return s.empty() ? "-" : s;
+}
 static void parseKv(const std::string& s, std::map<std::string, uint64_t>& m) {
     if (s == "-") return; size_t p = 0;
     while (p < s.size()) { size_t c = s.find(',', p); if (c == std::string::npos) c = s.size(); size_t e = s.find('=', p); if (e != std::string::npos && e < c) m[s.substr(p, e - p)] += strtoull(s.c_str() + e + 1, 0, 10); p = c + 1; }
